@@ -264,7 +264,8 @@ fn family_graphs(n: usize) -> Vec<Case> {
 
 fn family_substitution(thorough: bool) -> Vec<Case> {
     let mut out = Vec::new();
-    let plists: Vec<Vec<&str>> = vec![vec!["a"], vec!["ab"], vec!["a", "ab"], vec!["ab", "a"], vec!["a", "a1"], vec!["_a", "a"], vec!["b", "a"], vec!["a1", "b"]];
+    // (the last four are spelled like the tail of a hex / binary literal or like a register fragment)
+    let plists: Vec<Vec<&str>> = vec![vec!["a"], vec!["ab"], vec!["a", "ab"], vec!["ab", "a"], vec!["a", "a1"], vec!["_a", "a"], vec!["b", "a"], vec!["a1", "b"], vec!["x1"], vec!["b1", "x1"], vec!["xF", "b101"], vec!["x", "l"]];
     // X, Y stand for the first / second parameter (Y = X when there is one)
     let templates = [
         "add X, Y",
@@ -280,6 +281,9 @@ fn family_substitution(thorough: bool) -> Vec<Case> {
         "and X, Y",
         "test X, Y",
         "mov al, byte [X]",
+        // literals whose tails look like parameter names
+        "add X, 0x1 sub Y, 0b1",
+        "mov X, 0xF add Y, 0b101 mov al, 0x1",
     ];
     let args = ["ax", "BX", "cl", "ds", "5", "0x10", "0b101", "65535", "0x8000", "40000", "byte [bx]", "word [bx, si, 2]", "word es[di]", "word ds[bp, 2]", "byte ds[bp, si]", "word ss[bx]", "byte ab", "word w1", "ab", "m", "zz"];
     for pl in plists.iter() {
@@ -325,6 +329,10 @@ fn family_special() -> Vec<Case> {
     out.push(Case { family: "by-name", defs: vec![d("a", &["q"], "ADD AX,q"), d("b", &["k", "q"], "k (q)")], data: String::new(), code: "start:\nb(a,5)\n".into() });
     out.push(Case { family: "by-name-cycle", defs: vec![d("m0", &["f", "a"], "inc a f (f, a)")], data: String::new(), code: "start:\nm0(m0, ax)\n".into() });
     out.push(Case { family: "by-name-cycle", defs: vec![d("p", &["f"], "f (q)"), d("q", &["f"], "f (p)")], data: String::new(), code: "start:\np(q)\n".into() });
+    // a label / procedure spelled like the macro it is passed to (separate name spaces), also inside another macro
+    out.push(Case { family: "name-spaces", defs: vec![d("again", &["l"], "dec cx jnz l")], data: String::new(), code: "start:\nmov cx, 3\nagain:\nagain(again)\n".into() });
+    out.push(Case { family: "name-spaces", defs: vec![d("go", &["l"], "jmp l"), d("count", &["l"], "dec cx go(count) inc l")], data: String::new(), code: "start:\ncount(ax)\ncount:\nhlt\n".into() });
+    out.push(Case { family: "name-spaces", defs: vec![d("f", &["p"], "call p")], data: String::new(), code: "def f {\ninc ax\n}\nstart:\nf(f)\n".into() });
     // no-parameter macros
     out.push(Case { family: "no-param", defs: vec![d("n", &["_"], "stc cmc")], data: String::new(), code: "start:\nn(_)\nn(_)\n".into() });
     // unknown macro at top level and inside a body
@@ -443,7 +451,7 @@ pub fn run(tier: &Tier) -> i32 {
     c.states.fetch_add(st.0.load(Ordering::Relaxed), Ordering::Relaxed);
     let mut cov = Coverage::default();
     cov.exhaustive = true;
-    cov.rule = "differential: the program with macros must emit exactly what the real Preprocessor emits for the reference expansion (whole-word, simultaneous textual substitution, nested uses expanded) pasted in place. Families: EVERY use graph over 1, 2 and 3 macros (4 in thorough; each macro uses any subset of the macros incl. itself => all DAGs and all cyclic graphs), used from top level by each macro and from inside a procedure; parameter lists whose names are prefixes/substrings of each other and of body tokens x 12 body templates (register, immediate, unsigned-only immediate, direct address, memory, displacement and macro-name slots) x 21 argument kinds squared (incl. constants above 0x7FFF and DS / SS overrides on BP- and BX-based operands); macros with 9 .. 13 parameters; by-name passing incl. cycles closed through a name; every sequence of up to 3 uses over macros with empty, blank, plain and nested-empty bodies (top level and inside a procedure); unknown and late-defined macros; chains of depth 1..64 in-process and up to 4096 through the real binary. Cyclic / unknown => diagnostic positioned at a use site; invalid expansion => rejected; deep chains => exact expansion up to depth 64, above that expansion or diagnostic but never an abort".into();
+    cov.rule = "differential: the program with macros must emit exactly what the real Preprocessor emits for the reference expansion (whole-word, simultaneous textual substitution, nested uses expanded) pasted in place. Families: EVERY use graph over 1, 2 and 3 macros (4 in thorough; each macro uses any subset of the macros incl. itself => all DAGs and all cyclic graphs), used from top level by each macro and from inside a procedure; parameter lists whose names are prefixes/substrings of each other, of body tokens and of the tails of numeric literals in the body x 12 body templates (register, immediate, unsigned-only immediate, direct address, memory, displacement and macro-name slots) x 21 argument kinds squared (incl. constants above 0x7FFF and DS / SS overrides on BP- and BX-based operands); macros with 9 .. 13 parameters; by-name passing incl. cycles closed through a name; every sequence of up to 3 uses over macros with empty, blank, plain and nested-empty bodies (top level and inside a procedure); unknown and late-defined macros; chains of depth 1..64 in-process and up to 4096 through the real binary. Cyclic / unknown => diagnostic positioned at a use site; invalid expansion => rejected; deep chains => exact expansion up to depth 64, above that expansion or diagnostic but never an abort".into();
     cov.bounds = json!({"cases": cases.len(), "reference_rejects": st.1.load(Ordering::Relaxed), "both_expand": st.2.load(Ordering::Relaxed), "chain_depths": depths, "tier": tier.name()});
     cov.assumptions = common_assumptions();
     cov.assumptions.push("macro arguments are generated as unsigned numbers, registers, memory operands and identifiers (negative literals as arguments are not demanded)".into());
